@@ -32,6 +32,15 @@ fn main() {
   if args.is_empty() {
     usage();
   }
+  if args[0] == "--dump-seeds" {
+    let dir = args.get(1).cloned().unwrap_or_else(|| "fuzz/seeds".to_string());
+    for (target, name, bytes) in vcheck::props::c05::fuzz_seed_files() {
+      let d = std::path::Path::new(&dir).join(target);
+      let _ = std::fs::create_dir_all(&d);
+      let _ = std::fs::write(d.join(name), bytes);
+    }
+    return;
+  }
   let id = args[0].to_uppercase();
   let mut tier = match std::env::var("VERIF_TIER").ok().as_deref() {
     Some("thorough") => Tier::Thorough,
